@@ -80,6 +80,25 @@ pub fn gen_frag_cfg(r: &mut Rng, o: &FragOpts) -> (FragCfg, Option<av1::SeqHdr>)
             c.vp9 = Some([f.width, f.height, f.profile as u32, f.bit_depth as u32, f.color_space as u32, f.transfer as u32, f.matrix as u32, r.below(62) as u32, f.full_range as u32]);
         }
     }
+    if via_builder && r.chance(1, 5) {
+        // superfluous builder calls for OTHER codecs (a builder first prepared for another codec,
+        // or an application that passes every parameter set it has): video() decides the codec
+        if vcodec != H265 && r.chance(1, 2) {
+            c.vps = Some(ps(r, 0x40, true));
+        }
+        if (vcodec == AV1 || vcodec == VP9) && r.chance(1, 2) {
+            c.sps = Some(ps(r, 0x67, false));
+            c.pps = Some(ps(r, 0x68, false));
+        }
+        if vcodec != AV1 && r.chance(1, 3) {
+            let hdr = av1::gen_seq_hdr(r);
+            c.av1_seq = Some(av1::obu(1, &hdr.write(), true, None));
+        }
+        if vcodec != VP9 && r.chance(1, 3) {
+            let f = crate::model::vp9::gen_fields(r);
+            c.vp9 = Some([f.width, f.height, f.profile as u32, f.bit_depth as u32, f.color_space as u32, f.transfer as u32, f.matrix as u32, r.below(62) as u32, f.full_range as u32]);
+        }
+    }
     if o.hostile_cfg && !via_builder && r.chance(1, 4) {
         c.timescale = *r.pick(&[0u32, 1, u32::MAX]);
     }
@@ -88,7 +107,19 @@ pub fn gen_frag_cfg(r: &mut Rng, o: &FragOpts) -> (FragCfg, Option<av1::SeqHdr>)
 
 pub fn gen_frag_history(r: &mut Rng, o: &FragOpts) -> (FHistory, Option<av1::SeqHdr>) {
     let (cfg, side) = gen_frag_cfg(r, o);
-    let ops = gen_frag_ops(r, o);
+    let mut ops = gen_frag_ops(r, o);
+    if r.chance(1, 5) {
+        // real frames of the configured codec (whose in-band parameter sets / headers differ from
+        // the configuration given at construction): the muxer is documented to pass samples
+        // through untouched and to describe them with the configuration it was built with
+        for op in ops.iter_mut() {
+            if let FOp::Write { data, sync, .. } = op {
+                let kind = if *sync { crate::gen::frames::FrameKind::KeyCfg } else { crate::gen::frames::FrameKind::Delta };
+                let n = r.range(1, 40) as usize;
+                *data = crate::gen::frames::video_frame(r, cfg.vcodec, kind, n, false);
+            }
+        }
+    }
     (FHistory { cfg, ops }, side)
 }
 
@@ -96,9 +127,14 @@ pub fn gen_frag_ops(r: &mut Rng, o: &FragOpts) -> Vec<FOp> {
     let n = r.range(1, o.max_ops.max(1) as u64) as usize;
     let constant = r.chance(o.constant_interval_pct, 100);
     let step = *r.pick(&[3000u64, 1, 3003, 1500, 90_000, 33, 0]);
-    let start = match r.below(4) {
-        0 | 1 => 0,
-        2 => 90_000,
+    let start = match r.below(16) {
+        0..=6 => 0,
+        7..=10 => 90_000,
+        11 => {
+            // a decode time whose big-endian bytes spell a box name of the movie fragment
+            let f = *r.pick(&[b"trun", b"tfdt", b"tfhd", b"traf", b"mfhd", b"moof", b"mdat"]);
+            (u32::from_be_bytes(*f) as u64) << (8 * r.below(5))
+        }
         _ => r.below(1 << 40),
     };
     let mut dts = start;
